@@ -9,10 +9,12 @@ use crate::{common::*, gen::layouts::KINDS, layout::*, net::{mode_of, mode_tag}}
 
 pub enum Dec { Need, Got(Packet, usize), Bad(usize), FrameErr, Panic, Other(String) }
 
+// One long-lived codec per size mode, as a connection has: whatever an earlier call (a refused packet, a decode error, a panic
+// caught by the harness) may have left behind in it is in play for every later call of the run.
+thread_local! { static SHARED: [Codec; 2] = [Codec::new(mode_of(false)), Codec::new(mode_of(true))]; }
 pub fn decode_buf(compressed: bool, buf: &[u8]) -> Dec {
-    let codec = Codec::new(mode_of(compressed));
     let mut b = BytesMut::from(buf);
-    match guard(|| codec.decode(&mut b)) {
+    match guard(|| SHARED.with(|c| c[compressed as usize].decode(&mut b))) {
         None => Dec::Panic,
         Some(Ok(None)) => if b.len() == buf.len() { Dec::Need } else { Dec::Other("Ok(None) but the buffer changed".into()) },
         Some(Ok(Some(p))) => Dec::Got(p, buf.len() - b.len()),
@@ -27,6 +29,10 @@ pub fn cls_string(d: &Dec) -> String {
 
 pub enum Enc { Ok(Vec<u8>), Err, Panic }
 pub fn encode_p(compressed: bool, p: &Packet) -> Enc {
+    match guard(|| SHARED.with(|c| c[compressed as usize].encode(p))) { None => Enc::Panic, Some(Ok(b)) => Enc::Ok(b.to_vec()), Some(Err(_)) => Enc::Err }
+}
+/// the same on a codec created for this one call
+pub fn encode_fresh(compressed: bool, p: &Packet) -> Enc {
     let codec = Codec::new(mode_of(compressed));
     match guard(|| codec.encode(p)) { None => Enc::Panic, Some(Ok(b)) => Enc::Ok(b.to_vec()), Some(Err(_)) => Enc::Err }
 }
@@ -224,6 +230,34 @@ pub fn run_c04(a: &Args) {
                     } }
                     off += w;
                 }
+                // text fields: a codepage marker followed by every string of up to 3 class bytes (lead bytes of the double-byte codepages,
+                // ASCII digits, caret, letter, 0x80 / 0xFF), ending exactly at the end of the field and ending at a NUL: the decoder's
+                // left-to-right scan must never look past the text
+                if rep == 0 || a.thorough() {
+                    const MARK: [&[u8]; 6] = [b"^S", b"^J", b"^K", b"^H", b"^L", b"^8"];
+                    const CLS: [u8; 10] = [0x81, 0xfe, 0xa1, 0xe0, b'0', b'9', b'^', b'a', 0x80, 0xff];
+                    let full = matches!(k.name, "Mso" | "Cpr" | "Ism" | "Mst" | "Btn");
+                    let mut slots: Vec<(usize, usize)> = vec![]; let mut off = 2;
+                    for (_, at) in k.fixed { if let Atom::Text { n, raw: false, .. } = at { if off + n <= f.len() { slots.push((off, *n)); } } off += width(at); }
+                    if let Tail::TextEof { .. } = k.tail { if f.len() > off { slots.push((off, f.len() - off)); } }
+                    for (o, n) in slots {
+                        let maxl = if full { 3 } else { 2 };
+                        for mk in MARK { let mut idx: Vec<usize> = vec![];
+                            loop {
+                                let mut t: Vec<u8> = mk.to_vec(); t.extend(idx.iter().map(|i| CLS[*i]));
+                                if t.len() <= n {
+                                    // (a) the text ends at the end of the field
+                                    let mut g = f.clone(); for x in g[o..o + n].iter_mut() { *x = b'a'; } g[o + n - t.len()..o + n].copy_from_slice(&t); one(g, &mut st, &mut out, idx.len() <= 1);
+                                    // (b) the text ends at a NUL
+                                    let mut g = f.clone(); for x in g[o..o + n].iter_mut() { *x = 0; } g[o..o + t.len()].copy_from_slice(&t); one(g, &mut st, &mut out, idx.len() <= 1);
+                                }
+                                let mut kk = idx.len();
+                                loop { if kk == 0 { idx = vec![0; idx.len() + 1]; break; } kk -= 1; if idx[kk] + 1 < CLS.len() { idx[kk] += 1; for j in kk + 1..idx.len() { idx[j] = 0; } break; } }
+                                if idx.len() > maxl { break; }
+                            }
+                        }
+                    }
+                }
                 // size byte announcing less / more than the real content
                 if f.len() > 8 { let mut g = f.clone(); g[0] = if compressed { 1 } else { 4 }; one(g, &mut st, &mut out, true); let mut h = f.clone(); h[0] = h[0].wrapping_sub(1); one(h, &mut st, &mut out, true); }
             }
@@ -249,6 +283,18 @@ fn text_slot(k: &Kind, idx: usize) -> Option<(usize, usize, Option<usize>)> {
     for (_, a) in k.fixed { if let Atom::Text { n, .. } = a { if i == idx { return Some((off, *n, None)); } i += 1; } off += width(a); }
     if let Tail::TextEof { max, align, .. } = k.tail { if i == idx { return Some((off, max, Some(align))); } }
     None
+}
+
+/// packets of every kind, encodable and not (too many elements: refused after part of the packet was written; a duration beyond
+/// its field: refused mid-packet), in a fixed order
+fn codec_pool() -> Vec<Packet> {
+    let mut pool: Vec<Packet> = vec![];
+    for d in crate::gen::kinds::default_packets().iter() {
+        pool.push(d.clone());
+        for k in [1usize, 3, 250, 255] { let mut p = d.clone(); if crate::gen::glue::vec_resize(&mut p, k) { pool.push(p); } }
+        for idx in 0..crate::gen::glue::dur_fields(d) { let mut p = d.clone(); let _ = crate::gen::glue::set_dur(&mut p, idx, std::time::Duration::from_secs(1 << 40)); pool.push(p); }
+    }
+    pool
 }
 
 pub fn run_c03(a: &Args) {
@@ -288,6 +334,18 @@ pub fn run_c03(a: &Args) {
         }
         Some((format!("settext {} {} {} {}", mode_tag(compressed), hex(&base), idx, hex(text.as_bytes())), enc_string(&e)))
     };
+    if let Some(r) = &a.replay { if let Some(rest) = r.strip_prefix("codecpair ") {
+        let t: Vec<&str> = rest.split_whitespace().collect(); let compressed = t[0] == "C"; let pool = codec_pool();
+        let codec = Codec::new(mode_of(compressed)); let mut ok = true;
+        for ix in [t[1].parse::<usize>().unwrap(), t[2].parse::<usize>().unwrap()] {
+            let p = &pool[ix];
+            let got = match guard(|| codec.encode(p)) { None => Enc::Panic, Some(Ok(b)) => Enc::Ok(b.to_vec()), Some(Err(_)) => Enc::Err };
+            let want = encode_fresh(compressed, p);
+            println!("pool[{ix}]: long-lived codec {} / fresh codec {}", enc_string(&got), enc_string(&want));
+            if enc_string(&got) != enc_string(&want) { ok = false; }
+        }
+        if ok { println!("PASS"); std::process::exit(0) } else { println!("FAIL [C03] the frame depends on what the codec encoded before"); std::process::exit(1) }
+    } }
     if let Some(r) = &a.replay {
         let t: Vec<&str> = r.split_whitespace().collect(); let mut st = Stats::default();
         let o = if t[0] == "vec" { run_vec(t[1] == "C", t[2].parse().unwrap(), t[3].parse().unwrap(), &mut st) } else { let txt = String::from_utf8(unhex(t[4])).unwrap(); run_text(t[1] == "C", t[2].parse().unwrap(), t[3].parse().unwrap(), &txt, &mut st) };
@@ -321,6 +379,27 @@ pub fn run_c03(a: &Args) {
             if let Dec::Got(p, _) = decode_buf(compressed, &f) { match encode_p(compressed, &p) { Enc::Panic => st.fail(format!("[C03] a {} obtained by decoding makes the encoder panic", k.name), format!("frame {} {}", mode_tag(compressed), hex(&f))), Enc::Ok(b) => { if let Some(w) = wellformed(compressed, &b, k.magic) { st.fail(format!("[C03] re-encoded {}: {w}", k.name), format!("frame {} {}", mode_tag(compressed), hex(&f))); } }, Enc::Err => {} } }
         }
     } } }
+    // (replay: `codecpair <mode> <i> <j>` = pool[i] then pool[j] on one codec)
+    // one long-lived codec, as a connection has: the frame of a packet must not depend on what was encoded (or refused) before it.
+    // Sequences of refused and accepted packets of every kind on ONE codec, each result compared with a codec created for that call.
+    for compressed in [true, false] {
+        let codec = Codec::new(mode_of(compressed));
+        let pool = codec_pool();
+        let nseq = if a.thorough() { 4000 } else { 600 };
+        let mut refused = 0u64; let mut after_refused = 0u64; let mut last_refused = false; let mut prev_pi = 0usize;
+        for i in 0..nseq * 8 {
+            let pi = rng.below(pool.len() as u64) as usize; let p = pool[pi].clone();
+            let got = match guard(|| codec.encode(&p)) { None => Enc::Panic, Some(Ok(b)) => Enc::Ok(b.to_vec()), Some(Err(_)) => Enc::Err };
+            let want = encode_fresh(compressed, &p);
+            st.evaluations += 1;
+            let same = match (&got, &want) { (Enc::Ok(a), Enc::Ok(b)) => a == b, (Enc::Err, Enc::Err) | (Enc::Panic, Enc::Panic) => true, _ => false };
+            if !same { st.fail(format!("[C03] call #{i} on a long-lived codec ({} mode{}): {} but a fresh codec gives {} for the same {:?}", mode_tag(compressed), if last_refused { ", right after a refused packet" } else { "" }, enc_string(&got), enc_string(&want), std::mem::discriminant(&p)), format!("codecpair {} {} {}", mode_tag(compressed), prev_pi, pi)); break; }
+            if let Enc::Ok(b) = &got { if let Some(w) = wellformed(compressed, b, b.get(1).copied().unwrap_or(0)) { st.fail(format!("[C03] call #{i} on a long-lived codec: {w}"), format!("codecpair {} {} {}", mode_tag(compressed), prev_pi, pi)); break; } if last_refused { after_refused += 1; } }
+            last_refused = matches!(got, Enc::Err); if last_refused { refused += 1; }
+            prev_pi = pi;
+        }
+        st.notes.push(format!("long-lived codec ({} mode): {} calls, {} refused, {} accepted right after a refusal", mode_tag(compressed), nseq * 8, refused, after_refused));
+    }
     st.rule = "typed packets built through regenerated glue on the real Codec::encode: every element count 0..=255 for every counted-vector kind, texts of every length 0..2N+2 in every text field of every text-bearing kind, packets obtained by decoding generated frames; oracle = the C03 predicate (length multiple of 4 within the mode's limit, size byte, type byte, count byte = elements, own output decodes completely); non-trivial = non-empty text / any vector case".into();
     st.sample("vecrep C <Nlp frame, 1 element> 3 -> ok:06250103.. (24 bytes)".into());
     out.finish(&st);
@@ -384,6 +463,13 @@ pub fn run_c11(a: &Args) {
         } else { st.fail(format!("[C11] {} with a {}-byte text does not encode", kind.name, encoded.len()), id.clone()); }
         if text.is_ascii() { Some((format!("settext {} {} {} {}", mode_tag(compressed), hex(&base), idx, hex(text.as_bytes())), enc_string(&e))) } else { None }
     };
+    if let Some(r) = &a.replay { if let Some(rest) = r.strip_prefix("dirty ") {
+        let t: Vec<&str> = rest.split_whitespace().collect(); let compressed = t[0] == "C"; let o: usize = t[1].parse().unwrap(); let end: usize = t[2].parse().unwrap(); let dirty = unhex(t[3]);
+        let z = dirty[o..end].iter().position(|x| *x == 0).unwrap_or(end - o);
+        let mut clean = dirty.clone(); for x in clean[(o + z + 1).min(end)..end].iter_mut() { *x = 0; }
+        let (dc, dd) = (decode_buf(compressed, &clean), decode_buf(compressed, &dirty));
+        let same = match (&dc, &dd) { (Dec::Got(p, _), Dec::Got(q, _)) => format!("{:?}", p) == format!("{:?}", q), (Dec::Bad(_), Dec::Bad(_)) => true, _ => false };
+        if same { println!("PASS"); std::process::exit(0) } else { println!("FAIL [C11] bytes after the first NUL change the decoded packet: {} vs {}", cls_string(&dd), cls_string(&dc)); std::process::exit(1) } } }
     if let Some(r) = &a.replay {
         let t: Vec<&str> = r.split_whitespace().collect(); let mut st = Stats::default();
         let txt = String::from_utf8(unhex(t[3])).unwrap();
@@ -422,6 +508,37 @@ pub fn run_c11(a: &Args) {
         // embedded NUL: decoding stops at the first NUL
         let _ = check(compressed, ki, idx, "ab", &mut st);
     } } }
+    // decoding stops at the first NUL whatever the OTHER fields of the packet hold: frames of every text-bearing kind with all fields
+    // random (C01 generator), each text slot (a) as generated, (b) emptied (first byte NUL); every byte after the slot's first NUL
+    // overwritten with non-NUL bytes must not change the decoded packet
+    {
+        let mut rng = Rng::new(a.seed ^ 0xC11);
+        let mut dirty_cases = 0u64;
+        for compressed in [true, false] { for k in KINDS.iter() {
+            let mut slots: Vec<(usize, Option<usize>)> = vec![]; let mut off = 2;
+            for (_, at) in k.fixed { if let Atom::Text { n, raw: false, .. } = at { slots.push((off, Some(*n))); } off += width(at); }
+            if let Tail::TextEof { .. } = k.tail { slots.push((off, None)); }
+            if slots.is_empty() { continue; }
+            for _ in 0..(if a.thorough() { 120 } else { 16 }) {
+                let Some((f, _)) = gen_frame(&mut rng, k, compressed, 0, None) else { continue };
+                for (o, n) in &slots { let end = match n { Some(n) => o + n, None => f.len() }; if end > f.len() || *o >= end { continue; }
+                    for empty in [false, true] {
+                        let mut base = f.clone(); if empty { base[*o] = 0; }
+                        let Some(z) = base[*o..end].iter().position(|x| *x == 0) else { continue };
+                        if o + z + 1 >= end { continue; }
+                        let mut dirty = base.clone(); for (j, x) in dirty[o + z + 1..end].iter_mut().enumerate() { *x = if *x == 0 { b'A' + (j % 26) as u8 } else { *x }; }
+                        // a clean reference: everything after the first NUL zeroed
+                        let mut clean = base.clone(); for x in clean[o + z + 1..end].iter_mut() { *x = 0; }
+                        st.evaluations += 1; dirty_cases += 1;
+                        let (dc, dd) = (decode_buf(compressed, &clean), decode_buf(compressed, &dirty));
+                        let same = match (&dc, &dd) { (Dec::Got(p, _), Dec::Got(q, _)) => format!("{:?}", p) == format!("{:?}", q), (Dec::Bad(_), Dec::Bad(_)) => true, _ => false };
+                        if !same { st.fail(format!("[C11] {}: bytes after the first NUL of the text at offset {o} change the decoded packet: {} vs {}", k.name, match &dd { Dec::Got(q, _) => format!("{:?}", q).chars().take(140).collect::<String>(), d => cls_string(d) }, match &dc { Dec::Got(q, _) => format!("{:?}", q).chars().take(140).collect::<String>(), d => cls_string(d) }), format!("dirty {} {o} {} {}", mode_tag(compressed), end, hex(&dirty))); }
+                    }
+                }
+            }
+        } }
+        st.add("frames with bytes after the first NUL of a text slot (all other fields random)", dirty_cases);
+    }
     st.rule = "every text field of every text-bearing kind (widths 6,8,16,24,32,64,96,128,240) on the real encoder: ASCII texts of lengths 0..2N (every length near N, all residues mod 4) and multi-byte / multi-codepage texts; oracle: the field's bytes inside the frame are the encoded text truncated to N and NUL-padded (fixed) / NUL-padded to a multiple of 4 within the maximum (variable), MST/MSX/MSL/MTC end in NUL, decoding returns the text up to the first NUL".into();
     st.sample("Mst msg = 64 x 'A' -> field holds 64 x 0x41, no terminating NUL (known finding)".into());
     out.finish(&st);
